@@ -7,6 +7,7 @@ from scoda.sequences.sequence import Sequence
 from scoda.tokenisation.notelike_tokenisation import MultiTrackLargeVocabularyNotelikeTokeniser as Tok
 
 ENGINE = "E1-sweep"
+FRESH_WORKERS = True     # every unit starts from the import state of the library (no tokeniser built before)
 RULE = ("pieces described abstractly as (bar plan, per-track note lists, trailing cap) and built through "
         "add_absolute_message: (a) one track, ALL note sets up to the size bound over every bar plan x cap variants x flag "
         "sets; (b) 2-3 tracks incl. empty tracks, unequal lengths, same pitch at the same tick on different tracks x "
@@ -17,7 +18,7 @@ RULE = ("pieces described abstractly as (bar plan, per-track note lists, trailin
 ASSUMPTIONS = ["signature labels are not compared (6/8 and 3/4 render alike), only bar lengths",
                "output channel numbers are not compared; track index is",
                "the velocity-bin value is looked up in the tokeniser's own table by the harness's linear search"]
-REQUIRED_FLAGS = ["rest_crosses_bar_line", "signature_change", "multi_track", "same_pitch_same_tick_two_tracks", "empty_track",
+REQUIRED_FLAGS = ["configuration_history", "rest_crosses_bar_line", "signature_change", "multi_track", "same_pitch_same_tick_two_tracks", "empty_track",
                   "unequal_track_lengths", "note_overhangs_last_bar_line", "last_onset_on_bar_line_without_cap",
                   "trailing_empty_bar", "velocity_binned", "unfused_all", "no_running_values", "non_default_note_values"]
 
@@ -67,6 +68,8 @@ def units(ctx):
         for nt in (2, 3):
             for j in range(4):
                 yield ("b", pi, nt, j)
+    for k in range(len(CONFIG_HISTORIES)):
+        yield ("d", k)
     for vb in ([1, 2, 3, 4, 8] if ctx["tier"] == "quick" else [1, 2, 3, 4, 5, 8, 15, 16, 19, 32, 64, 100, 127]):
         for nt in (1, 2, 3):
             for pr in range(3):
@@ -124,9 +127,39 @@ def pool(pr, nv, nt):
     return out
 
 
+# (d) configuration histories: several tokenisers built and used one after the other in ONE process on the same pieces
+CONFIG_HISTORIES = [
+    [dict(vb=1), dict(vb=4), dict(vb=8), dict(vb=2)],
+    [dict(vb=8), dict(vb=2), dict(vb=1)],
+    [dict(vb=2, fl=FL[0]), dict(vb=2, fl=FL[15]), dict(vb=2, fl=FL[1]), dict(vb=2, fl=FL[0])],
+    [dict(vb=4, nt=2), dict(vb=4, nt=3), dict(vb=2, nt=2)],
+    [dict(vb=2, pr=(21, 108)), dict(vb=2, pr=(60, 61)), dict(vb=8, pr=(0, 127))],
+    [dict(vb=3, nv=None), dict(vb=3, nv=[6, 12, 36]), dict(vb=3, nv=[12])],
+]
+
+
 def gen_cases(unit, ctx):
     kind = unit[0]
     allplans = list(plans(ctx["B"]))
+    if kind == "d":
+        hist_ = CONFIG_HISTORIES[unit[1]]
+        for plan in ([None], ["34", "44"]):
+            st, _ = grid(plan)
+            done = []
+            for cfg in hist_:
+                nt = cfg.get("nt", 1)
+                pr = cfg.get("pr", (21, 108))
+                nv = cfg.get("nv")
+                d12 = 12
+                tr = [[(0, d12, pr[0], 20), (12, d12, pr[1], 96), (st[1] - 12, d12, pr[0], 100), (24, d12, pr[1], 1)]]
+                tr += [[(0, d12, pr[0], 127)] if k == 1 else [] for k in range(1, nt)]
+                c = piece(plan, tr, 1, cfg.get("fl", FL[0]), cfg["vb"], pr, nv)
+                c["before"] = [dict(x) for x in done]
+                yield c
+                c2 = dict(c)
+                c2.pop("before")
+                done.append(c2)
+        return
     if kind in ("a1", "a2", "a3"):
         plan = allplans[unit[1]]
         al = alphabet(plan)
@@ -258,6 +291,14 @@ def check_case(case, ctx):
         R.flags.append("non_default_note_values")
     R.nontrivial = sum(len(t) for t in tracks) >= 2 or nt >= 2 or "rest_crosses_bar_line" in R.flags or "signature_change" in R.flags
     R.tags = dict(tags, velocity_bins=vb)
+    for prev in case.get("before", []):
+        # earlier tokenisers of the same process, used on the same kind of piece
+        sub = check_case(prev, ctx)
+        if sub.viols:
+            R.outcome = "history_itself_violates"
+            return R
+    if case.get("before"):
+        R.flags.append("configuration_history")
     try:
         t = get_tok(nt, vb, fl, case["pr"], case.get("nv"))
     except Exception as e:  # noqa: BLE001
